@@ -162,3 +162,19 @@ Theorem C12_frozen_accepts_orig_refuted :
     /\ table s2 = [2; 1] /\ sent s2 = sent s0 ++ [2; 1].
 Proof. exact frozen_accepts_orig_refuted. Qed.
 Print Assumptions C12_frozen_accepts_orig_refuted.
+
+(* A seeded mutation of the feedback fix (Load, then a plain Store instead of the CompareAndSwap loop)
+   violates the accounting under a feedback racing a finish of the same seed; the committed code
+   rejects the feedback on the same schedule.  (Replayed on the real code by the `reactorc` driver's
+   racing rounds.) *)
+Theorem C12_feedback_loadstore_refuted :
+  exists s s',
+    run loadstore (init 2 1) (ls_race ++ [FbCheck 1 ArmChan; FbSelect 1 ArmChan]) = Some s
+    /\ crashed s = false /\ calls s = []
+    /\ rets s = [(OFb 1, ROk); (OFin 1, ROk); (OIns 1, ROk)]
+    /\ table s = [1] /\ tokens s = 0
+    /\ run fixed (init 2 1) (ls_race ++ [FbLoad 1]) = Some s'
+    /\ calls s' = [] /\ rets s' = [(OFb 1, RNotPresent); (OFin 1, ROk); (OIns 1, ROk)]
+    /\ table s' = [] /\ tokens s' = 0.
+Proof. exact feedback_loadstore_refuted. Qed.
+Print Assumptions C12_feedback_loadstore_refuted.
